@@ -385,6 +385,17 @@ BRANCH_COMPONENTS = {
 }
 
 
+def _kind_tables(node):
+    """{kind letter: type text} of every `dict(b=bool, ...)` call or `{'b': bool, ...}` display under node."""
+    kw = {}
+    for n in ast.walk(node):
+        if isinstance(n, ast.Call) and src(n.func) == 'dict' and not n.args:
+            kw.update({k.arg: src(k.value) for k in n.keywords if k.arg})
+        elif isinstance(n, ast.Dict) and n.keys and all(isinstance(k, ast.Constant) and isinstance(k.value, str) and len(k.value) == 1 for k in n.keys):
+            kw.update({k.value: src(v) for k, v in zip(n.keys, n.values)})
+    return kw
+
+
 def check_branches(model, rep):
     f = model.func('types:nutils_hash')
     chain = None
@@ -442,8 +453,7 @@ def check_branches(model, rep):
     rep.ob('R17.5', f.key, f.where(norm[0]) if norm else f.where(), ok, 'numpy scalars are normalised to Python scalars before the type tag is taken' if ok else
            'numpy scalar normalisation does not precede `t = type(data)`: numpy.int64(1) and 1 would hash differently', statement='numpy-scalar-normalisation')
     if norm:
-        tables = [n for n in ast.walk(norm[0]) if isinstance(n, ast.Call) and src(n.func) == 'dict']
-        kw = {k.arg: src(k.value) for t_ in tables for k in t_.keywords}
+        kw = _kind_tables(norm[0])
         expect = {'b': 'bool', 'i': 'int', 'f': 'float', 'c': 'complex'}
         ok = all(kw.get(k) == v for k, v in expect.items()) and all(kw[k] == {'u': 'int'}.get(k, expect.get(k)) for k in kw)
         rep.ob('R17.5', f.key, f.where(norm[0]), ok, f'kind table {kw} maps numpy kinds to the matching Python types' if ok else f'kind table {kw} is wrong', statement='kind-table')
@@ -571,8 +581,7 @@ def check_canonical(model, rep):
     rep.ob('R17.4', fn.key, fn.where(), ok, 'DataClass hash is tagged with module and qualname', statement='dataclass-tag')
     # arraydata
     ad = t.classes['arraydata'].members['__new__'].func
-    tables = [n for n in ast.walk(ad.node) if isinstance(n, ast.Call) and src(n.func) == 'dict']
-    kw = {k.arg: src(k.value) for t_ in tables for k in t_.keywords}
+    kw = _kind_tables(ad.node)
     ok = kw == {'b': 'bool', 'u': 'int', 'i': 'int', 'f': 'float', 'c': 'complex'}
     rep.ob('R17.4', ad.key, ad.where(), ok, 'arraydata maps dtype kinds b,u,i,f,c to bool,int,int,float,complex' if ok else f'arraydata kind table is {kw}', statement='arraydata-kinds')
     txt = src(ad.node)
@@ -594,7 +603,8 @@ def check_consumers(model, rep):
     ok = "'{}.{}:{}'.format(func.__module__, func.__qualname__, version)" in txt and 'func_key = hashlib.sha1(' in txt
     rep.ob('R17.6', f.key, f.where(), ok, 'the cache key starts from module.qualname:version of the function' if ok else 'func_key no longer covers module, qualname and version', statement='func-key')
     wt = src(w.node)
-    ok = 'canonicalize(*args, **kwargs)' in wt and 'for arg in args' in wt and 'types.nutils_hash(arg)' in wt and 'kwargs.items()' in wt and 'sorted(' in wt and 'types.nutils_hash(v)' in wt and 'k.encode()' in wt
+    from rules.c18 import arguments_enter_key
+    ok = 'canonicalize(*args, **kwargs)' in wt and all(arguments_enter_key(w))
     rep.ob('R17.6', w.key, w.where(), ok, 'every canonical positional argument and every keyword name and value enter the key, keywords sorted' if ok else
            'the cache key no longer covers all canonical positional and keyword arguments order-independently', statement='cache-key-covers-arguments')
     b = model.func('evaluable:_BlockTreeBuilder.add_constant') if 'evaluable:_BlockTreeBuilder.add_constant' in model.functions else None
